@@ -137,6 +137,41 @@ impl HnswVectorIndex {
         })
     }
 
+    /// Check everything `add_vector` requires of the vector itself (dimension, finite
+    /// lanes, metric normalization) without touching the index.
+    ///
+    /// Write paths call this before making a mutation durable so that a vector the
+    /// index would reject is refused up front instead of after the WAL append.
+    pub fn validate_vector(&self, embedding: &[f32]) -> Result<()> {
+        if embedding.len() != self.dimension {
+            anyhow::bail!(
+                "Embedding dimension mismatch: expected {}, got {}",
+                self.dimension,
+                embedding.len()
+            );
+        }
+        if embedding.iter().any(|v| !v.is_finite()) {
+            anyhow::bail!("embedding contains non-finite values");
+        }
+
+        if matches!(
+            self.distance,
+            DistanceMetric::Cosine | DistanceMetric::InnerProduct
+        ) && !self.disable_normalization_check
+        {
+            let norm_sq = crate::simd::sum_squares_f32(embedding);
+            if !(NORMALIZATION_NORM_SQ_MIN..=NORMALIZATION_NORM_SQ_MAX).contains(&norm_sq) {
+                anyhow::bail!(
+                    "{:?} requires L2-normalized vectors; norm_sq={}",
+                    self.distance,
+                    norm_sq
+                );
+            }
+        }
+
+        Ok(())
+    }
+
     /// Add vector to index (no upserts, errors if full or wrong dimension)
     pub fn add_vector(&mut self, doc_id: u64, embedding: &[f32]) -> Result<()> {
         if embedding.len() != self.dimension {
